@@ -1,16 +1,26 @@
 H = 'babylon::SerializationHelper::'
+ET = 'babylon::SerializeTraits<babylon_vf::E64, void>::'
+ST = 'babylon::SerializeTraits<std::basic_string<char>, void>::'
+STR = 'std::basic_string<char>'
+COS = 'google::protobuf::io::CodedOutputStream'
 GROUP = dict(
     prop='C11',
     driver='driver.cpp',
     spec='spec.h',
-    aliases=[('google::protobuf::io::CodedInputStream', 'CodedInputStream')],
-    outside_methods={'google::protobuf::io::CodedInputStream': ['ReadVarint64', 'Skip']},
-    roots=[H + 'varint_size', H + 'consume_unknown_field'],
+    aliases=[('google::protobuf::io::CodedInputStream', 'CodedInputStream'), (COS, 'CodedOutputStream'), ('babylon::SerializeTraits<babylon_vf::E64, void>', 'EnumTraits'), ('babylon::SerializeTraits<std::basic_string<char>, void>', 'StringTraits'), (STR, 'String'), ('babylon_vf::', '')],
+    outside_methods={'google::protobuf::io::CodedInputStream': ['ReadVarint64', 'Skip', 'GetDirectBufferPointer'], COS: ['WriteVarint64', 'WriteString'], STR: ['clear', 'append', 'assign', 'size']},
+    outside_funcs={'VarintSize64': 'vf_VarintSize64', 'VarintSize32': 'vf_VarintSize32', 'EnumSize': 'vf_EnumSize', 'Int32Size': 'vf_Int32Size', 'VarintSize32SignExtended': 'vf_VarintSize32SignExtended'},
+    roots=[H + 'varint_size', H + 'consume_unknown_field', ET + 'serialize', ET + 'deserialize', ET + 'calculate_serialized_size', ST + 'serialize', ST + 'deserialize', ST + 'calculate_serialized_size'],
     reviewed_compiler_conditionals=['src/babylon/serialization/traits.hpp:#if !__clang__', 'src/babylon/serialization/traits.hpp:#if !__clang__ && __cplusplus < 201703L'],  # a static constexpr member of BasicSerializeTraits only; not used by the functions under contract
     assumptions=['protobuf CodedInputStream::ReadVarint64/Skip are contract stubs: Skip(count) fails for count < 0 and otherwise consumes exactly count bytes or fails; ReadVarint64 consumes 1..10 bytes or fails',
                  'length prefixes below 2^31 (Skip takes an int; larger prefixes are truncated by the implicit conversion: recorded precondition, not claimed)'],
     jobs=[
         dict(id='C11.varint_size', enforce='SerializationHelper_varint_size'),
+        dict(id='C11.enum.size', enforce='EnumTraits_calculate_serialized_size'),
+        dict(id='C11.enum.serialize', enforce='EnumTraits_serialize'),
+        dict(id='C11.enum.deserialize', enforce='EnumTraits_deserialize', replace=['CodedInputStream_ReadVarint64']),
+        dict(id='C11.string.deserialize', enforce='StringTraits_deserialize', replace=['CodedInputStream_Skip'], loops=True),
+        dict(id='C11.string.size', enforce='StringTraits_calculate_serialized_size'),
         dict(id='C11.consume_unknown_field', enforce='SerializationHelper_consume_unknown_field', replace=['CodedInputStream_ReadVarint64', 'CodedInputStream_Skip']),
     ],
 )
